@@ -263,6 +263,18 @@ func runCheck(cfg *RunConfig) int {
 		}
 		if inc > 0 {
 			fmt.Printf("  INCONCLUSIVE %d obligations (solver unknown/timeouts)\n", inc)
+			// a handful of undecided queries is timing noise and is reported in the evidence; many of them
+			// mean the property could not be decided on this tree, which is not success
+			tol := obl / 200
+			if tol < 3 {
+				tol = 3
+			}
+			if inc > tol {
+				fmt.Printf("  UNDECIDED: %d of %d obligations of %s could not be decided (tolerance %d): exit 2\n", inc, obl, hn, tol)
+				if exit == 0 {
+					exit = 2
+				}
+			}
 		}
 		// vacuity: every harness must reach at least one cover
 		if len(h.covers) == 0 {
